@@ -59,7 +59,7 @@ DEFAULT_KNOBS: Dict[str, Any] = {
 
 EXC_NAMES = ["ValueError", "KeyError", "RuntimeError", "SimError", "ZeroDivisionError", "SimBadStr", "TimeoutError", "SimTimeout"]
 KICK_EXC_NAMES = ["SimFault", "SimFault", "RuntimeError", "TimeoutError", "OSError", "BrokerError", "UnknownTaskError", "TaskiqError", "SendTaskError", "ResultGetError"]
-BASE_EXC_NAMES = ["KeyboardInterrupt", "SystemExit", "SimBaseError"]
+BASE_EXC_NAMES = ["KeyboardInterrupt", "SystemExit", "SimBaseError", "CancelledError"]
 HOOKS_WORKER = ["pre_execute", "on_error", "post_execute", "post_save"]
 HOOKS_CLIENT = ["pre_send", "post_send"]
 
